@@ -161,9 +161,6 @@ func c09cases() []c09case {
 			cs = append(cs, c09case{ci, ri, "names"}, c09case{ci, ri, "ospaths"})
 		}
 	}
-	for ri := range c09chains {
-		cs = append(cs, c09case{0, ri, "kernel"})
-	}
 	return cs
 }
 
@@ -178,6 +175,18 @@ func init() {
 		NumCases:    func(env *core.Env) int { return len(c09cases()) },
 		Batch:       6,
 		Run:         c09run,
+		PreParent: func(env *core.Env) []core.CaseResult {
+			// the kernel part needs strace, so it runs from the parent; each helper process confines itself (chroot)
+			var out []core.CaseResult
+			for ri, chain := range c09chains {
+				var r core.CaseResult
+				r.Idx = -1 - ri
+				r.Key = fmt.Sprint("kernel", ri)
+				c09kernel(env, chain, &r)
+				out = append(out, r)
+			}
+			return out
+		},
 		Exhaustive:  func(env *core.Env) bool { return true },
 		Floor: func(env *core.Env, agg *core.Agg) string {
 			if agg.Counters["to_os_evaluations"] < 50000 || agg.Counters["from_os_evaluations"] < 50000 || agg.Counters["kernel_calls"] < 100 {
@@ -208,11 +217,6 @@ func c09run(env *core.Env, idx int) core.CaseResult {
 	cs := c09cases()[idx]
 	var res core.CaseResult
 	conv, chain := c09convs[cs.Conv], c09chains[cs.Chain]
-	if cs.Part == "kernel" {
-		c09kernel(env, chain, &res)
-		res.Key = core.Hash(cs)
-		return res
-	}
 	fsys, err := c09fs(conv, chain)
 	if err != nil {
 		res.Violate("C09|setup|Sub", fmt.Sprintf("Sub chain %v failed: %v", chain, err), cs)
@@ -374,7 +378,7 @@ func c09kernel(env *core.Env, chain []string, res *core.CaseResult) {
 		res.Inconclusive = "strace run failed: " + err.Error()
 		return
 	}
-	root := base
+	root := "/jail" // the helper chroots into base and works below /jail
 	for _, e := range rootElems(chain) {
 		root += "/" + e
 	}
@@ -436,6 +440,13 @@ func c09straceChild(args []string) int {
 		chain = strings.Split(args[1], "|")
 	}
 	runtime.LockOSThread()
+	inner := filepath.Join(base, "jail")
+	_ = os.MkdirAll(inner, 0o777)
+	if err := core.Jail(base); err != nil {
+		fmt.Println("NOJAIL", err)
+		return 2
+	}
+	base = "/jail" // all paths below are relative to the chroot
 	root := base
 	for _, e := range rootElems(chain) {
 		root += "/" + e
@@ -472,7 +483,7 @@ func c09straceChild(args []string) int {
 			bad := ""
 			switch r.Typ {
 			case "PathError":
-				if r.EPath == "" || strings.HasPrefix(r.EPath, "/") || strings.Contains(r.EPath, base) {
+				if r.EPath == "" || strings.HasPrefix(r.EPath, "/") || strings.Contains(r.EPath, "jail") {
 					bad = fmt.Sprintf("%s -> Path=%q", st, r.EPath)
 				}
 			case "LinkError":
